@@ -192,7 +192,9 @@ package models
 //@   requires 1 <= i && i < len(buf) && buf[i] == ' '
 //@   loop 1 invariant pos: start <= i && i <= len(buf) && start >= 2
 //@   loop 1 invariant counters: 0 <= equals && equals <= i && 0 <= commas && commas <= i
+//@   loop 1 invariant first_key: (equals > 0 ==> i > start) && (i > start ==> buf[start] != 61) && (quoted ==> equals > commas)
 //@   ensures in_range: result0 >= i && result0 <= len(buf) && len(result1) <= result0 - i
+//@   ensures first_field_has_a_key: result2 == nil ==> len(result1) > 0 && result1[0] != 61
 //@   modifies nothing
 
 // scanKey: measurement, then tags; unsorted tags are re-assembled in sorted order into a fresh buffer.
@@ -214,9 +216,12 @@ package models
 //@ func parsePoint
 //@   props C12
 //@   modifies nothing
+//@   dead ret8
 //@   loop 1 invariant pos: 0 <= pos && pos <= len(buf)
 //@   ensures point_or_error: result1 == nil ==> result0 != nil
 
+// (ret8, "missing fields" after a successful scanFields, is unreachable: scanFields never succeeds with an empty
+// field section - first_field_has_a_key.)
 // A failing line is reported and skipped; the points accepted so far are kept.
 //@ func ParsePointsWithPrecision
 //@   props C12
